@@ -1,19 +1,73 @@
 import Model.Common.Proto
+import Model.Common.Sha256
 import Model.C05.VarInt
+import Model.C05.Codec
+import Model.C05.Tx
 import Generated.VarInt
-open Btc
+import Generated.Wire
+open Btc Btc.Wire
 
 def renderVarInt (r : Except VarInt.Err (Nat × Bytes)) : String :=
   match r with
   | .ok (v, rest) => s!"ok {v} {toHex rest}"
   | .error e => s!"err {e.name}"
 
+def joinWith (sep : String) (l : List String) (empty : String := "-") : String :=
+  if l.isEmpty then empty else sep.intercalate l
+
+def rOutPoint (o : OutPoint) : String := s!"{toHex o.txId}:{o.vout}"
+def rWitness (w : List Bytes) : String := joinWith "," (w.map toHex)
+def rTxIn (i : TxIn) : String := s!"{rOutPoint i.prevOut}/{toHex i.scriptSig}/{i.sequence}/{rWitness i.witness}"
+def rTxOut (o : TxOut) : String := s!"{o.value}/{toHex o.script}"
+def rTx (t : Tx) : String :=
+  s!"v={t.version} l={t.lockTime} in=[{joinWith ";" (t.vin.map rTxIn)}] out=[{joinWith ";" (t.vout.map rTxOut)}]"
+def rHeader (h : BlockHeader) : String :=
+  s!"{h.version}/{toHex h.prevHash}/{toHex h.merkleRoot}/{h.time}/{toHex h.bits}/{h.nonce}"
+
+/-- `<class>.parse s|o <hex>`: stream mode answers with the unread rest, octets mode refuses it.
+    On success the model's own `ser` and `size` of the parsed object are appended, so the one op
+    ties parser, serializer and size function. -/
+def runCodec (c : Codec α) (render : α → String) (extra : α → String) (mode : String) (b : Bytes) : String :=
+  match mode with
+  | "s" => match c.parse b with
+    | .error e => s!"err {e.name}"
+    | .ok (t, rest) => s!"ok {render t} rest={toHex rest} ser={toHex (c.ser t)} size={c.size t}{extra t}"
+  | "o" => match c.parseAll b with
+    | .error e => s!"err {e.name}"
+    | .ok t => s!"ok {render t} rest=_ ser={toHex (c.ser t)} size={c.size t}{extra t}"
+  | _ => "bad-op"
+
+def txExtra (t : Tx) : String :=
+  s!" stripped={toHex (t.ser false)} ssize={t.size false} weight={t.weight} vsize={t.vsize} id={toHex (t.id hash256)} wid={toHex (t.wid hash256)} segwit={t.isSegwit}"
+
+def blockExtra (b : Block) : String :=
+  s!" ssize={b.size false} weight={b.weight} stripped={toHex (hash256 (b.serW false))}"
+
+def none' {α : Type} (_ : α) : String := ""
+
 def handle : List String → String
   | "gen" :: "VarInt" :: fn :: args => (Gen.VarInt.dispatch fn args).getD "bad-op"
+  | "gen" :: "Wire" :: fn :: args => (Gen.Wire.dispatch fn args).getD "bad-op"
   | ["varint.parse", hex, maxSize] =>
     match fromHex? hex, maxSize.toNat? with
     | some b, some m => renderVarInt (VarInt.parse b m)
     | _, _ => "bad-op"
+  | [cls, mode, hex] =>
+    match fromHex? hex with
+    | none => "bad-op"
+    | some b =>
+      match cls with
+      | "varbytes.parse" => runCodec varBytes toHex none' mode b
+      | "outpoint.parse" => runCodec outPoint rOutPoint none' mode b
+      | "witness.parse" => runCodec witness rWitness none' mode b
+      | "txin.parse" => runCodec txIn rTxIn none' mode b
+      | "txout.parse" => runCodec txOut rTxOut none' mode b
+      | "tx.parse" => runCodec tx rTx txExtra mode b
+      | "header.parse" => runCodec blockHeader rHeader (fun h => s!" hash={toHex (h.hash hash256)}") mode b
+      | "block.parse" => runCodec block
+          (fun bl => s!"{rHeader bl.header} n={bl.txs.length} txs={toHex (hash256 ((bl.txs.map rTx).foldl (fun acc s => acc ++ s.toUTF8.toList) []))}")
+          blockExtra mode b
+      | _ => "bad-op"
   | _ => "bad-op"
 
 def main : IO Unit := runLoop handle
